@@ -126,7 +126,8 @@ class Scenario:
 
     def model_args(self):
         i = {"file": "path", "stdin": "stdin", "missing": "missing"}[self.in_kind]
-        o = {"inplace": "same", "out": "other", "dir": "other", "dirsame": "same", "stdout": "stdout", "pretend": "none", "implicit": "same"}[self.route]
+        o = {"inplace": "same", "out": "other", "dir": "other", "dirsame": "same", "stdout": "stdout", "pretend": "none", "implicit": "same",
+             "dirrel": "other", "outrel": "other"}[self.route]
         return i, o, "1" if self.preserve and self.route in ("inplace", "out", "dir") else "0", {"improvable": "improved", "optimal": "same", "invalid": "err"}[self.cls]
 
 
@@ -160,6 +161,11 @@ SCENARIOS = [
     # --dir naming the directory the input already lives in, both given as relative paths: this IS an in-place run
     Scenario("dirsame-optimal", "file", "dirsame", False, "optimal"),
     Scenario("dirsame-improvable", "file", "dirsame", False, "improvable"),
+    # the input named by its bare file name, the destination a DIFFERENT file whose path ends in that same name
+    Scenario("dirrel-optimal", "file", "dirrel", False, "optimal"),
+    Scenario("dirrel-improvable", "file", "dirrel", False, "improvable"),
+    Scenario("outrel-optimal", "file", "outrel", False, "optimal"),
+    Scenario("outrel-improvable", "file", "outrel", False, "improvable"),
 ]
 
 
@@ -198,6 +204,15 @@ class Sandbox:
         elif sc.route == "dirsame":
             self.outp = self.inp
             argv += ["--dir", "imgs"]
+        elif sc.route == "dirrel":
+            self.cwd = self.d
+            self.outp = os.path.join(self.d, "sub", "in.png")
+            argv += ["--dir", "sub"]
+        elif sc.route == "outrel":
+            self.cwd = self.d
+            os.makedirs(os.path.join(self.d, "sub"))
+            self.outp = os.path.join(self.d, "sub", "in.png")
+            argv += ["--out", "sub/in.png"]
         elif sc.route in ("stdout", "implicit"):
             if sc.route == "stdout":
                 argv += ["--stdout"]
@@ -209,7 +224,7 @@ class Sandbox:
         if sc.existing_dest:
             open(self.outp, "wb").write(b"previous content of the destination, longer than any result " * 700)
             os.chmod(self.outp, 0o600)
-        argv.append(("imgs/in.png" if sc.route == "dirsame" else self.inp) if sc.in_kind != "stdin" else "-")
+        argv.append(("imgs/in.png" if sc.route == "dirsame" else "in.png" if sc.route in ("dirrel", "outrel") else self.inp) if sc.in_kind != "stdin" else "-")
         self.argv = argv
         if self.stdout_path:
             open(self.stdout_path, "wb").close()
@@ -319,7 +334,7 @@ def run(rep):
             aft = sb.after()
             want = want_of[sc.cls]
             # final state
-            if mresult == "ok" and sc.route in ("out", "dir", "inplace", "dirsame"):
+            if mresult == "ok" and sc.route in ("out", "dir", "inplace", "dirsame", "dirrel", "outrel"):
                 rel = os.path.relpath(sb.outp, sb.d)
                 exp = data if sc.cls == "optimal" else want
                 if sc.cls == "optimal" and sc.route in ("inplace", "dirsame"):
